@@ -212,7 +212,7 @@ func runPureCase(c *Chain, r *rand.Rand, pc PCase) (ev *Event) {
 	case "swapIn":
 		ain := sizeOf(rin)
 		ev.Args["ain"] = ain.String()
-		snap := pool
+		snap := staleSnapshot(pool, pc.S("snap"))
 		out, _, _, bonus, _, err := pool.SwapOutAmtGivenIn(ctx, a.OracleKeeper, &snap, sdk.NewCoins(sdk.NewCoin(din, ain)), dout, fee, a.AccountedPoolKeeper, one, params)
 		if err != nil {
 			ev.OK, ev.Log = false, truncate(err.Error(), 200)
@@ -223,7 +223,7 @@ func runPureCase(c *Chain, r *rand.Rand, pc PCase) (ev *Event) {
 	case "swapOut":
 		aout := sizeOf(rout)
 		ev.Args["aout"] = aout.String()
-		snap := pool
+		snap := staleSnapshot(pool, pc.S("snap"))
 		in, _, _, bonus, _, err := pool.SwapInAmtGivenOut(ctx, a.OracleKeeper, &snap, sdk.NewCoins(sdk.NewCoin(dout, aout)), din, fee, a.AccountedPoolKeeper, one, params)
 		if err != nil {
 			ev.OK, ev.Log = false, truncate(err.Error(), 200)
@@ -236,7 +236,7 @@ func runPureCase(c *Chain, r *rand.Rand, pc PCase) (ev *Event) {
 		inA, inB := sizeOf(x), sizeOf(y)
 		ev.Args["inA"], ev.Args["inB"] = inA.String(), inB.String()
 		ev.Args["rA"], ev.Args["rB"] = x.String(), y.String()
-		snap := pool
+		snap := staleSnapshot(pool, pc.S("snap"))
 		joined, sh, _, _, err := pool.JoinPool(ctx, &snap, a.OracleKeeper, a.AccountedPoolKeeper, sdk.NewCoins(sdk.NewCoin(dA, inA), sdk.NewCoin(dB, inB)), params)
 		if err != nil {
 			ev.OK, ev.Log = false, truncate(err.Error(), 200)
@@ -248,7 +248,7 @@ func runPureCase(c *Chain, r *rand.Rand, pc PCase) (ev *Event) {
 	case "joinSingle":
 		ain := sizeOf(rin)
 		ev.Args["ain"] = ain.String()
-		snap := pool
+		snap := staleSnapshot(pool, pc.S("snap"))
 		joined, sh, _, bonus, err := pool.JoinPool(ctx, &snap, a.OracleKeeper, a.AccountedPoolKeeper, sdk.NewCoins(sdk.NewCoin(din, ain)), params)
 		if err != nil {
 			ev.OK, ev.Log = false, truncate(err.Error(), 200)
@@ -294,6 +294,25 @@ func runPureCase(c *Chain, r *rand.Rand, pc PCase) (ev *Event) {
 		return nil
 	}
 	return ev
+}
+
+// staleSnapshot returns the per-block snapshot handed to the pool functions: the live pool itself, or the pool as it was
+// before earlier operations of the same block had grown / shrunk it by 30 %.
+func staleSnapshot(pool ammtypes.Pool, how string) ammtypes.Pool {
+	if how == "" || how == "live" {
+		return pool
+	}
+	snap := pool
+	snap.PoolAssets = append([]ammtypes.PoolAsset{}, pool.PoolAssets...)
+	num, den := int64(7), int64(10)
+	if how == "larger" {
+		num, den = 13, 10
+	}
+	for i := range snap.PoolAssets {
+		snap.PoolAssets[i].Token.Amount = snap.PoolAssets[i].Token.Amount.MulRaw(num).QuoRaw(den).AddRaw(1)
+	}
+	snap.TotalShares.Amount = snap.TotalShares.Amount.MulRaw(num).QuoRaw(den).AddRaw(1)
+	return snap
 }
 
 func poolReserve(p ammtypes.Pool, d string) math.Int {
